@@ -12,4 +12,28 @@ CHECKS = {
         "text": "The space is finite and is closed completely: every exported Element/Isotope, every identifier spelling and case pattern, every ordered pair for ==/!=/hash, every Line pair over a small transition set. Because nothing is left out, silence is a proof for the registry as shipped.",
         "note": "Trusts the independent periodic table in mc/refs/periodic.py and that species are the module attributes of cherab.core.atomic.elements.",
     },
+    "C05": {
+        "engine": "L",
+        "technique": "bounded-exhaustive enumeration of scenes (compositions x flows x metastable layouts x providers x energies x directions x beam/plasma points), every BeamModel.emission call compared with the documented formula and with the logged coefficient arguments",
+        "text": "Every point of a declared lattice of beam/plasma scenes is executed on the real BeamCXLine/BeamEmissionLine and compared with a pure-python reference of the documented population-weighted mean / charged sum; the mock provider logs every coefficient evaluation so each argument (E_int, T, total ion density, Z_eff, |B|, request key) is checked separately. Exhaustive over the lattice, says nothing between lattice points.",
+        "note": "Beam density comes from a stub attenuator (real attenuators are C04); line shapes are trusted to conserve the radiance (C02); closed-form mock coefficients in mc/refs/c05_ref.py.",
+    },
+    "C07": {
+        "engine": "L",
+        "technique": "bounded-exhaustive enumeration of repository states x accessor x flag triples x species kinds x table shapes, each rate evaluated on a lattice of grid nodes, midpoints, non-positive and out-of-range arguments",
+        "text": "Each case builds a private repository through repository.update_* and closes the product of 14 accessors x 8 flag triples x element/isotope requests x table shapes (incl. single-point axes) x 7 repository states; every returned rate is evaluated at every grid node, cell midpoints, non-positive arguments and four out-of-range points per axis against the documented conversion and range / missing-data policy. Decoy tables (isotope-keyed data, other-role wavelengths) make any mis-routed lookup change the number.",
+        "note": "Repository write path is trusted here (decided by C06); raysect interpolators trusted between nodes (only finiteness / sign checked there). Single-point 2-D axes and exact end nodes are listed known findings.",
+    },
+    "C12": {
+        "engine": "L",
+        "technique": "exhaustive enumeration of every grid node and cell centre of 7-10 equilibria x toroidal angles x profile kinds x outside values x vector weightings, compared with independent finite-difference / closed-form references",
+        "text": "All nodes and cell centres of the (r,z) domain of the bundled example, Generomak and synthetic Solov'ev/parabolic equilibria (both signs of psi_lcfs-psi_axis, one with an exactly vanishing poloidal field at a node) are evaluated on the real EFITEquilibrium; psi_n, LCFS mask, B, basis vectors, map2d/3d and map_vector2d/3d are compared with an independently coded point-in-polygon, finite-difference gradient and closed forms. Exhaustive over the lattice.",
+        "note": "Points within 1e-9 of the LCFS accept either side; 3-D points whose hypot rounds outside the grid are skipped (counted); raysect 2-D interpolation trusted between nodes for the tight oracle.",
+    },
+    "C18": {
+        "engine": "L+H",
+        "technique": "exhaustive setter-sequence exploration (all sequences <= 3, thorough 4, with read masks) with live-vs-fresh differential oracle, plus exhaustive parameter lattices for integrals, segment tiling and spectrum binning",
+        "text": "Engine H: every public setter of the four profiles and two spectra (two valid values + documented rejected values), all sequences up to length 3 (thorough: 4), detached and attached to a Laser, every observable compared with a freshly constructed object; blame replay attributes a divergence to the first op causing it. Engine L: cross-section / volume integrals and second moments on a parameter lattice by independent quadrature, segment tiling over a radius x length lattice incl. +-1 ulp coincidences, per-bin power against closed-form integrals over all awkward-decimal ranges.",
+        "note": "Trapezoid quadrature on a grid scaled from the measured width (stated tolerance 1e-10); Rayleigh-range formula of GaussianBeamAxisymmetric is not in the property and not checked; swapping profile/spectrum on the Laser and ray tracing are covered by C01's laser driver.",
+    },
 }
